@@ -70,7 +70,7 @@ def r1_tagging(R) -> None:
             lc = x.args[0]
         if lc is None or len(lc.generators) != 1 or lc.generators[0].ifs:
             if is_call(x, 'parse_terms'):
-                R.violation(q, f'untagged:{text(part)}', f'`{text(part)} = {text(x)[:60]}`: the terms of this side are not tagged', where=f.where(f.cfg.nodes[site]))
+                R.violation(q, f'untagged:{text(part)}', f'`{text(part)} = {text(x)[:60]}`: the terms of this side are not tagged', where=f.where(f.cfg.nodes[site]), mismatch=True)
                 continue
             raise Unsupported(f'{q}: `{text(part)}` = `{text(x)[:70]}` is not a comprehension over parse_terms(<side>)')
         g = lc.generators[0]
@@ -97,7 +97,7 @@ def r1_tagging(R) -> None:
             only_var = False
             cond_text = '<unconditional>'
         elif text(elt) == tv:
-            R.violation(q, f'untagged:{text(part)}', f'`{text(part)}`: the terms of `{side}` are not tagged', where=f.where(f.cfg.nodes[site]))
+            R.violation(q, f'untagged:{text(part)}', f'`{text(part)}`: the terms of `{side}` are not tagged', where=f.where(f.cfg.nodes[site]), mismatch=True)
             continue
         if tag is None:
             raise Unsupported(f'{q}: element `{text(elt)[:70]}` of `{text(part)}` is not a conditional retagging of the term')
@@ -384,7 +384,7 @@ def r3_lag_lead_table(R) -> None:
     for nm, fn, attr in (('lags', 'min', 'lags'), ('leads', 'max', 'leads')):
         kw = kwarg(ret[0].ast.value, nm)
         if kw is None:
-            R.violation(q, f'combine:{nm}:missing', f'the combined symbol is built without `{nm}=`', where=f.where(ret[0]))
+            R.violation(q, f'combine:{nm}:missing', f'the combined symbol is built without `{nm}=`', where=f.where(ret[0]), mismatch=True)
             continue
         c = se.value(ret[0].ast, kw)
         if not (isinstance(c, ast.Call) and isinstance(c.func, ast.Name) and len(c.args) == 3):
@@ -467,7 +467,7 @@ def r3_lag_lead_table(R) -> None:
         got = rows.get(k)
         shown = f'({k[0]}, {k[1]})'
         if got is None or got == '<raise>':
-            R.violation(g.q, f'row-missing:{shown}', f'no row for {shown} in {helper}', where=g.fi.where)
+            R.violation(g.q, f'row-missing:{shown}', f'no row for {shown} in {helper}', where=g.fi.where, mismatch=True)
         else:
             R.check(got in vs, g.q, f'row:{shown}:{got}', f'{shown} -> {vs[0]}',
                     f'row {shown} yields `{got}`, expected `{vs[0]}`' + (' (the implicit 0 keeps a lead-only variable from producing a negative lag length)' if k == ('int', 'int') else ''),
@@ -658,7 +658,7 @@ def _check_lag_spec(R, q, nm, agg, floor, v, sym_param, where) -> None:
     v = ast.fix_missing_locations(_Default().visit(_copy.deepcopy(v)))
     if not (isinstance(v, ast.IfExp) and text(v.test) == f'{nm} is None'):
         if text(v) == nm:
-            R.violation(q, f'{nm}-aggregate', f'`{nm}` is never computed from the symbols (no `{nm} is None` branch)', where=where)
+            R.violation(q, f'{nm}-aggregate', f'`{nm}` is never computed from the symbols (no `{nm} is None` branch)', where=where, mismatch=True)
             return
         if any(isinstance(x, ast.Name) and x.id in (floor,) for x in ast.walk(v)) or any(is_call(x, 'abs', 'min', 'max') for x in ast.walk(v)):
             R.violation(q, f'{nm}-rebound-outside:{text(v)[:60]}', f'`{nm}` is `{text(v)[:90]}` whatever was passed: an explicit {nm}= does not replace the computed value',
@@ -673,7 +673,7 @@ def _check_lag_spec(R, q, nm, agg, floor, v, sym_param, where) -> None:
         inner = [a_ for a_ in body.args if text(a_) != floor][0]
         R.ok(q, f'{floor} only raises the computed value')
     else:
-        R.violation(q, f'{nm}-floor', f'`{nm}` computed from the symbols is `{text(body)[:80]}`: not max(<computed>, {floor})', where=where)
+        R.violation(q, f'{nm}-floor', f'`{nm}` computed from the symbols is `{text(body)[:80]}`: not max(<computed>, {floor})', where=where, mismatch=True)
         inner = body
     # inner: abs(agg(...)) if NIS else 0
     if isinstance(inner, ast.IfExp):
@@ -683,7 +683,7 @@ def _check_lag_spec(R, q, nm, agg, floor, v, sym_param, where) -> None:
         R.check(is_const(zero, 0), q, f'{nm}-zero', f'{nm.upper()} = 0 without variable-like symbols', f'fallback of `{nm}` is `{text(zero)}`, not 0', where=where)
     else:
         comp, nis_test = inner, None
-        R.violation(q, f'{nm}-zero', f'no `{nm} = 0` fallback for a model without variable-like symbols (`{text(inner)[:60]}`)', where=where)
+        R.violation(q, f'{nm}-zero', f'no `{nm} = 0` fallback for a model without variable-like symbols (`{text(inner)[:60]}`)', where=where, mismatch=True)
     gen = None
     if is_call(comp, 'abs') and len(comp.args) == 1 and is_call(comp.args[0], 'min', 'max') and len(comp.args[0].args) == 1 \
             and isinstance(comp.args[0].args[0], (ast.GeneratorExp, ast.ListComp)):
@@ -693,7 +693,7 @@ def _check_lag_spec(R, q, nm, agg, floor, v, sym_param, where) -> None:
                 f'`{nm}` is abs({used}(...)), expected abs({agg}(...))', where=where)
     else:
         if any(is_call(x, other, agg, 'abs') for x in ast.walk(comp)) or isinstance(comp, ast.Constant):
-            R.violation(q, f'{nm}-aggregate:{text(comp)[:50]}', f'`{nm}` is computed as `{text(comp)[:80]}`, not abs({agg}(s.{nm} for s in <variable-like symbols>))', where=where)
+            R.violation(q, f'{nm}-aggregate:{text(comp)[:50]}', f'`{nm}` is computed as `{text(comp)[:80]}`, not abs({agg}(s.{nm} for s in <variable-like symbols>))', where=where, mismatch=True)
             return
         raise Unsupported(f'{q}: computed `{nm}` is `{text(comp)[:70]}`')
     g = gen.generators[0]
@@ -919,7 +919,7 @@ def r6_first_appearance(R) -> None:
                 R.ok(q, f'`{text(n.ast)[:70]}`: made only when the name has no entry yet (first appearance)')
             elif kind == 'unknown' and any(method_call(x, 'combine') for x in ast.walk(n.ast.value)):
                 R.violation(q, 'merge:' + text(n.ast.value), f'`{text(n.ast)}` is not {D}.get({ke}, s).combine(s): the symbol is not combined with the entry of its own name',
-                            where=f.where(n))
+                            where=f.where(n), mismatch=True)
             # a plain overwrite keeps the position of first appearance (dict semantics); what it loses is C13.R5c's business
         R.expect(q, n_merge, 1, 'stores that merge a repeated name into its entry')
         # removal or reordering of entries
@@ -954,7 +954,7 @@ def r6_first_appearance(R) -> None:
                 else:
                     okp = False
             if not okp:
-                R.violation(q, 'return:' + tv, f'`return {tv[:90]}` does not return the symbols in insertion order', where=f.where(r))
+                R.violation(q, 'return:' + tv, f'`return {tv[:90]}` does not return the symbols in insertion order', where=f.where(r), mismatch=True)
                 continue
             whole = [o for o in over_d if o is None]
             parts = [o for o in over_d if o is not None]
@@ -1108,7 +1108,10 @@ def r7_default_range(R) -> None:
             ok = text(r.args[0]) == 'self._locate_period_in_span(start)' and affine(r.args[1]) == affine(expr('self._locate_period_in_span(end) + 1')) \
                 and (len(r.args) == 2 or is_const(r.args[2], 1))
             R.check(ok, q, 'range:' + text(r), 'positions run from loc(start) to loc(end) inclusive', f'`{text(r)}` is not range(loc(start), loc(end) + 1)',
-                    where=f.where(n), decided=all(isinstance(x, (ast.Name, ast.Attribute, ast.Constant, ast.BinOp, ast.Call, ast.operator, ast.expr_context, ast.UnaryOp, ast.unaryop, ast.Subscript)) for x in ast.walk(r)))
+                    where=f.where(n),
+                    # a value only when everything in it was read: nothing but the two labels, `self` and the span length
+                    decided=all(isinstance(x, (ast.Name, ast.Attribute, ast.Constant, ast.BinOp, ast.Call, ast.operator, ast.expr_context, ast.UnaryOp, ast.unaryop, ast.Subscript)) for x in ast.walk(r))
+                    and {x.id for x in ast.walk(r) if isinstance(x, ast.Name)} <= {'self', 'start', 'end', 'range', 'len'})
 
 
 def run(R) -> None:
